@@ -603,6 +603,8 @@ func execBody(r *Recipe, env *Env, shared []*jen.Statement) (hist []Outcome) {
 			case "fill":
 				if st := ctx.slots[op.I]; st != nil {
 					st.Add(ctx.build(op.Node))
+				} else {
+					o.Kind = "fill_skipped" // the placeholder is not part of this build (minimised away)
 				}
 			case "add_to_group":
 				if len(ctx.groups) > 0 {
@@ -615,6 +617,11 @@ func execBody(r *Recipe, env *Env, shared []*jen.Statement) (hist []Outcome) {
 			case "addfrag":
 				if len(b.frags) > 0 {
 					f.Add(b.frags[op.I%len(b.frags)])
+				}
+			case "addfrag_chain":
+				// f.Add(x) returns a statement of the File's own: what is chained onto it belongs to this File only
+				if len(b.frags) > 0 {
+					f.Add(b.frags[op.I%len(b.frags)]).Line().Comment(op.S)
 				}
 			case "gostring":
 				// fmt's %#v on a File: GoString renders the File and panics on error
